@@ -22,6 +22,9 @@ func init() { register("C18", c18) }
 // Every m-th tree (m > 0) has one tip more than the reference: it cannot be compared and its
 // record must say so.
 func c18(c *Sexp) *Sexp {
+	if c.Str("op") == "rename" {
+		return c18rename(c)
+	}
 	rand.Seed(int64(c.Int("seed")))
 	n, k, m, cpus := c.Int("ntips"), c.Int("ntrees"), c.Int("foreign"), c.Int("cpus")
 	ref, err := tree.RandomYuleBinaryTree(n, false)
